@@ -34,6 +34,8 @@ def scope_entry(ctx, rule):
   p = f.params[0]
   g, facts = std_facts(prog, f)
   pushes = nodes_calling(prog, f, g, ENTER)
+  if not pushes and ENTER not in ctx.ix.by_qual:
+    raise AnalysisError('the scope stack push %s vanished: the push protocol changed, so the entry forms cannot be read off config_scope' % ENTER)
   if not pushes:
     ctx.fail(rule, con, 'config_scope no longer calls the scope stack push (%s)' % ENTER, f.loc())
     return
@@ -323,6 +325,10 @@ def instance_state(ctx, rule, class_qual, allowed, why):
       if isinstance(n, ast.Attribute) and isinstance(n.ctx, ast.Store) and isinstance(n.value, ast.Name) and n.value.id == selfn:
         seen.setdefault(n.attr, []).append((m, n))
   extra = sorted(set(seen) - set(allowed))
+  vanished = sorted(set(allowed) - set(seen))
+  if extra and vanished and len(vanished) >= len(extra):
+    raise AnalysisError('the state layout of %s changed (no longer set: %s; new: %s): the rules about its attributes cannot be read off this class'
+                        % (c.name, vanished, extra))
   for a in extra:
     m, n = seen[a][0]
     ctx.fail(rule, con, 'new per-object state `self.%s` (set in %s): %s' % (a, m.name, why), m.loc(n), instance='attr:' + a)
